@@ -735,6 +735,68 @@ Check C20_exec_complete : forall log10, log10_sane log10 ->
 Print Assumptions C20_exec_complete.
 Print Assumptions C20_names.
 
+(* ---- THE HYPOTHESIS ON libm, AS THE REAL FUNCTION SATISFIES IT.  log10_sane (above, kept as it was stated) asks
+        floor(log10 a) to be right for negative a too, but f64::log10 returns NaN on negative arguments, so the real
+        function does NOT satisfy it (C20_log10_sane_too_strong).  format_display_number only ever applies log10 to
+        absolute values, and every *_exec theorem holds under the weaker log10_sane_pos (sign bit clear), which is
+        what the LOG10SANE stream evaluates on the real f64::log10.  The theorems above are corollaries. ---- *)
+Definition log10_sane_pos (log10 : num -> num) : Prop :=
+  forall a k, valid_binary prec emax a = true -> nsign a = false -> in_decade a k ->
+              k <= as_i32 (nfloor (log10 a)) <= k + 1.
+Lemma C20_log10_sane_implies_pos : forall log10, log10_sane log10 -> log10_sane_pos log10.
+Proof. intros log10 H a k V _ D. exact (H a k V D). Qed.
+Example C20_log10_sane_too_strong : forall log10,
+  log10 (num_of_bits 0xc07f400000000000) = S754_nan ->       (* log10(-500.0) = NaN *)
+  ~ log10_sane log10.
+Proof.
+  intros log10 Hn HS.
+  assert (D : in_decade (num_of_bits 0xc07f400000000000) 2).
+  { split; [apply Qle_bool_iff|apply Qlt_alt]; vm_compute; reflexivity. }
+  assert (V : valid_binary prec emax (num_of_bits 0xc07f400000000000) = true) by (vm_compute; reflexivity).
+  specialize (HS _ 2 V D). rewrite Hn in HS. cbn in HS. destruct HS as [H1 _]. apply H1. reflexivity.
+Qed.
+
+Theorem C20_accuracy_exec_pos : forall log10, log10_sane_pos log10 ->
+  forall x t, valid_binary prec emax x = true -> is_finite x = true -> neqb x nzero = false ->
+    format_display_number log10 powi_exec fmt_prec_exec fmt_exp14_exec parse_f64_exec true x = Ok t ->
+    accurate15 x t.
+Proof. exact display_accurate_exec_pos. Qed.
+Check C20_accuracy_exec_pos : forall log10, log10_sane_pos log10 ->
+  forall x t, valid_binary prec emax x = true -> is_finite x = true -> neqb x nzero = false ->
+    format_display_number log10 powi_exec fmt_prec_exec fmt_exp14_exec parse_f64_exec true x = Ok t ->
+    accurate15 x t.
+Print Assumptions C20_accuracy_exec_pos.
+Print Assumptions C20_names.
+
+Theorem C20_wellformed_exec_pos : forall log10 fx, log10_sane_pos log10 ->
+  forall x t, valid_binary 53 1024 x = true ->
+  format_display_number log10 powi_exec fmt_prec_exec fmt_exp14_exec parse_f64_exec fx x = Ok t ->
+  wf_numeral t = true.
+Proof. exact display_wellformed_exec_pos. Qed.
+Check C20_wellformed_exec_pos : forall log10 fx, log10_sane_pos log10 ->
+  forall x t, valid_binary 53 1024 x = true ->
+  format_display_number log10 powi_exec fmt_prec_exec fmt_exp14_exec parse_f64_exec fx x = Ok t ->
+  wf_numeral t = true.
+Print Assumptions C20_wellformed_exec_pos.
+Print Assumptions C20_names.
+
+(* the summary theorem under the hypothesis the real libm meets: total, well-formed, accurate *)
+Theorem C20_exec_complete_pos : forall log10, log10_sane_pos log10 ->
+  forall x, valid_binary prec emax x = true ->
+  exists t,
+    format_display_number log10 powi_exec fmt_prec_exec fmt_exp14_exec parse_f64_exec true x = Ok t /\
+    wf_numeral t = true /\
+    (is_finite x = true -> neqb x nzero = false -> accurate15 x t).
+Proof. exact display_exec_complete_pos. Qed.
+Check C20_exec_complete_pos : forall log10, log10_sane_pos log10 ->
+  forall x, valid_binary prec emax x = true ->
+  exists t,
+    format_display_number log10 powi_exec fmt_prec_exec fmt_exp14_exec parse_f64_exec true x = Ok t /\
+    wf_numeral t = true /\
+    (is_finite x = true -> neqb x nzero = false -> accurate15 x t).
+Print Assumptions C20_exec_complete_pos.
+Print Assumptions C20_names.
+
 (* ---- log10_sane is satisfiable: a log10 returning floor(log10 a) exactly, as a double ---- *)
 Example C20_hyp_log10_satisfiable : log10_sane log10_floor_model.
 Proof. exact log10_floor_model_sane. Qed.
